@@ -509,16 +509,42 @@ def run(ctx: Ctx, rep: Report, tier: str) -> None:  # noqa: C901
             rep.violation(ls.qualname, f"{v}", "the stored view is never written", where(ls))
         else:
             rep.ok(f"{v}", "only Port.line setter (and private helpers only it calls) stores it", where=where(ls))
-    lcfg = ctx.cfg(ls)
+    from .normalise import normalised as _normalised
+
+    ls_n = _normalised(ctx, ls, "calls")  # a setter that hands the whole job to one private helper is read with it inlined
+    lcfg = ctx.cfg(ls_n)
+
+    def _pairs(st: ast.AST):
+        for t in (st.targets if isinstance(st, ast.Assign) else [st.target]):
+            if isinstance(t, (ast.Tuple, ast.List)):
+                if isinstance(st.value, (ast.Tuple, ast.List)) and len(t.elts) == len(st.value.elts):
+                    yield from zip(t.elts, st.value.elts)
+                else:
+                    for k_, e_ in enumerate(t.elts):
+                        yield e_, ("unpacked", st.value, k_, len(t.elts))
+            else:
+                yield t, st.value
+
+    def _helper_tuple(e: ast.AST, env_: Dict[str, ast.AST]):
+        """(items expr, ports expr) pairs of the return tuples of the private helper whose call `e` (or the local it is bound to) is."""
+        e = deep_resolve(e, env_) if isinstance(e, ast.Name) else e
+        if isinstance(e, ast.Call) and isinstance(e.func, ast.Attribute) and src(e.func.value) == "self":
+            hm = port.lookup_method(e.func.attr)
+            if hm is not None:
+                rets = [r for r in own_nodes(hm.node) if isinstance(r, ast.Return) and r.value is not None]
+                if rets and all(isinstance(r.value, ast.Tuple) for r in rets):
+                    return [r.value.elts for r in rets]
+        return None
+
     for p in function_paths(lcfg):
         if p.raises:
             continue
         stored = {}
         for node, lab in p.nodes:
-            if node.kind == "stmt" and isinstance(node.ast, ast.Assign):
-                for t in node.ast.targets:
+            if node.kind == "stmt" and isinstance(node.ast, (ast.Assign, ast.AnnAssign)) and getattr(node.ast, "value", None) is not None:
+                for t, v in _pairs(node.ast):
                     if isinstance(t, ast.Attribute) and src(t.value) == "self" and t.attr in views:
-                        stored[t.attr] = node.ast.value
+                        stored[t.attr] = v
             # a private helper of the setter that definitely stores a view on every normal path (interprocedural must-assign)
             if node.kind == "stmt" and node.ast is not None:
                 for c in ast.walk(node.ast):
@@ -536,33 +562,43 @@ def run(ctx: Ctx, rep: Report, tier: str) -> None:  # noqa: C901
             rep.violation(ls.qualname, f"path stores {sorted(stored)}", f"a normal path leaves {miss} with its previous value", where(ls))
             continue
         # _sport from the same value as _ports; _ports from _items_to_ports(<what is stored in _items>)
-        sp = deep_resolve(stored["_sport"], p.env)
-        po = deep_resolve(stored["_ports"], p.env)
-        it = deep_resolve(stored["_items"], p.env)
+        sp = deep_resolve(stored["_sport"], p.env) if not isinstance(stored["_sport"], tuple) else None
         cons_ok = True
-        # both values unpacked from ONE call of a private helper that returns `(<items>, self._items_to_ports(<items>))`
+        # _items and _ports taken from ONE tuple that a private helper returns as `(<items>, self._items_to_ports(<items>))`:
+        # unpacked into two locals first, or straight into the two attributes
         via_helper = False
-        if isinstance(stored["_ports"], ast.Name) and isinstance(stored["_items"], ast.Name):
+        pv, iv = stored["_ports"], stored["_items"]
+        tup_src, ii, ip = None, None, None
+        if isinstance(pv, tuple) and isinstance(iv, tuple) and pv[1] is iv[1]:
+            tup_src, ii, ip = pv[1], iv[2], pv[2]
+        elif isinstance(pv, ast.Name) and isinstance(iv, ast.Name):
             for node, _lab in p.nodes:
-                if node.kind == "stmt" and isinstance(node.ast, ast.Assign) and isinstance(node.ast.targets[0], ast.Tuple) and isinstance(node.ast.value, ast.Call) and isinstance(node.ast.value.func, ast.Attribute) and src(node.ast.value.func.value) == "self":
+                if node.kind == "stmt" and isinstance(node.ast, ast.Assign) and isinstance(node.ast.targets[0], ast.Tuple):
                     names = [src(e) for e in node.ast.targets[0].elts]
-                    if stored["_items"].id in names and stored["_ports"].id in names:
-                        hm = port.lookup_method(node.ast.value.func.attr)
-                        rets = [r for r in own_nodes(hm.node) if isinstance(r, ast.Return) and r.value is not None] if hm is not None else []
-                        if rets and all(isinstance(r.value, ast.Tuple) and len(r.value.elts) == len(names) for r in rets):
-                            ii, ip = names.index(stored["_items"].id), names.index(stored["_ports"].id)
-                            via_helper = all(isinstance(r.value.elts[ip], ast.Call) and src(r.value.elts[ip].func).endswith("_items_to_ports") and r.value.elts[ip].args and src(r.value.elts[ip].args[0]) == src(r.value.elts[ii]) for r in rets)
+                    if iv.id in names and pv.id in names:
+                        tup_src, ii, ip = node.ast.value, names.index(iv.id), names.index(pv.id)
+        if tup_src is not None:
+            rows = _helper_tuple(tup_src, p.env)
+            via_helper = bool(rows) and all(len(r) > max(ii, ip) and isinstance(r[ip], ast.Call) and src(r[ip].func).endswith("_items_to_ports") and r[ip].args and src(r[ip].args[0]) == src(r[ii]) for r in rows)
+        ports_names = {src(pv)} if isinstance(pv, ast.AST) else set()
+        ports_names.add("self._ports")  # read back from the attribute just stored
         if via_helper:
-            if not (isinstance(sp, ast.Call) and sp.args and src(sp.args[0]) == src(stored["_ports"])):
+            if not (isinstance(sp, ast.Call) and sp.args and src(sp.args[0]) in ports_names):
                 cons_ok = False
-                rep.violation(ls.qualname, f"_sport = {snippet(stored['_sport'])}", "the range string is not computed from the list stored in _ports", where(ls))
-        elif not (isinstance(po, ast.List) and not po.elts):
-            if not (isinstance(sp, ast.Call) and sp.args and src(sp.args[0]) == src(po)):
-                cons_ok = False
-                rep.violation(ls.qualname, f"_sport = {snippet(stored['_sport'])}", "the range string is not computed from the list stored in _ports", where(ls))
-            if not (isinstance(po, ast.Call) and src(po.func).endswith("_items_to_ports") and po.args and src(po.args[0]) == src(it)):
-                cons_ok = False
-                rep.violation(ls.qualname, f"_ports = {snippet(stored['_ports'])}", "the port list is not computed from the operands stored in _items", where(ls))
+                rep.violation(ls.qualname, f"_sport = {snippet(stored['_sport']) if isinstance(stored['_sport'], ast.AST) else '...'}", "the range string is not computed from the list stored in _ports", where(ls))
+        elif isinstance(pv, tuple) or isinstance(iv, tuple):
+            cons_ok = False
+            rep.violation(ls.qualname, "_items, _ports = <tuple>", "the operands and the port list are unpacked from a value that is not `(<items>, self._items_to_ports(<items>))` of a private helper: the port list is not computed from the operands stored in _items", where(ls))
+        else:
+            po = deep_resolve(pv, p.env)
+            it = deep_resolve(iv, p.env)
+            if not (isinstance(po, ast.List) and not po.elts):
+                if not (isinstance(sp, ast.Call) and sp.args and (src(sp.args[0]) == src(po) or src(sp.args[0]) in ports_names)):
+                    cons_ok = False
+                    rep.violation(ls.qualname, f"_sport = {snippet(stored['_sport'])}", "the range string is not computed from the list stored in _ports", where(ls))
+                if not (isinstance(po, ast.Call) and src(po.func).endswith("_items_to_ports") and po.args and src(po.args[0]) == src(it)):
+                    cons_ok = False
+                    rep.violation(ls.qualname, f"_ports = {snippet(stored['_ports'])}", "the port list is not computed from the operands stored in _items", where(ls))
         if cons_ok:
             rep.ok(f"{ls.qualname}: path storing all four views", "_ports = f(_items), _sport = g(_ports)", where=where(ls))
     numerals_as_text(ctx, rep)
@@ -1162,7 +1198,9 @@ def _is_sorted(ctx: Ctx, f: Func, arg: Optional[ast.AST], depth: int = 0) -> Tup
         for e in ctx.cg.all_edges(f):
             if e.site is arg and isinstance(e.target, Func) and e.kind == "call" and not e.weak:
                 g = e.target
-                rets = [n.value for n in own_nodes(g.node) if isinstance(n, ast.Return) and n.value is not None]
+                from ..model import in_nested_def
+
+                rets = [n.value for n in own_nodes(g.node) if isinstance(n, ast.Return) and n.value is not None and not in_nested_def(n, g.node)]
                 if rets and all(_is_sorted(ctx, g, r, depth + 1)[0] for r in rets):
                     return True, f"{g.qualname} returns sorted(...)"
                 return False, f"{g.qualname} does not return a sorted list"
